@@ -33,7 +33,7 @@ ASSUMPTIONS = [
     "bar lengths are judged from the first time signature on; bars add_measures creates before a late first signature are only checked for coverage and overlap (no signature is in force there)",
     "cases in which a bar would have to end between two timeline positions (division change inside the bar) are generated but not judged",
     "a stored symbolic duration counts as correct when its exact value differs from the numeric duration by less than 1e-3 * divisions (the estimator's documented tolerance eps); empty dicts / None mean 'no single notated value' and are not judged",
-    "notes never straddle a division change, and rests that fill_rests adds inside a measure containing a division change are not judged (the gap is in mixed units); tie chains in the input are contiguous and of one pitch/voice/staff; fill_rests is only given notes with integer voice and staff (it indexes numpy arrays of them)",
+    "notes straddle a division change only when it stands on a bar line of the first signature (then tie_notes has to label each piece with the divisions at its own start; a value stored on a note that still straddles the change is not judged), and rests that fill_rests adds inside a measure containing a division change are not judged (the gap is in mixed units); tie chains in the input are contiguous and of one pitch/voice/staff; fill_rests is only given notes with integer voice and staff (it indexes numpy arrays of them)",
     "orphan grace notes are documented to be attached or removed by sanitize_part and are left out of the before/after comparison",
     "Because GenericNote.symbolic_duration estimates a value whenever none is stored, `note.symbolic_duration is None` is never true for a note inside a Part: the second half of tie_notes (split_note) and the whole of find_tuplets never act. The property does not demand that they act, so this is reported, not judged; find_tie_split/order_splits are therefore exercised directly",
 ]
@@ -285,6 +285,7 @@ def oracle_pipeline(spec):
     o.cls("existing-measures", bool(mod.existing))
     o.cls("gap-between-existing-measures", bool(mod.existing) and bool(G.uncovered(mod.existing, mod.first, mod.last)))
     o.cls("division-change", len(mod.divs) > 1)
+    o.cls("note-held-across-division-change", any(n["t"] < c < n["t"] + n["dur"] for n in spec["notes"] for (c, _) in mod.divs[1:]))
     o.cls("musical-beats", spec.get("beat_mode") == "musical")
     o.cls("input-has-tie-chain", any(n.get("tie_next") for n in spec["notes"]))
     o.cls("input-has-explicit-symbolic-duration", any(n.get("sym") and n["kind"] != "grace" for n in spec["notes"]))
@@ -418,6 +419,10 @@ def oracle_pipeline(spec):
             if isinstance(n, S.Rest) and old is None and any(m[0] <= n.start.t < m[1] and any(m[0] < c < m[1] for (c, _) in mod.divs[1:]) for m in meas):
                 # a rest filled into a measure that contains a division change: the gap may be in mixed units
                 o.excluded.append("rest-added-in-measure-with-division-change")
+                continue
+            if any(n.start.t < c < n.end.t for (c, _) in mod.divs[1:]):
+                # a value stored on a note that (still) straddles a division change: its numeric duration is in mixed units
+                o.excluded.append("symbolic-duration-of-note-straddling-division-change")
                 continue
             o.cls("library-stored-symbolic-duration")
             if isinstance(n, S.Rest) and old is None and n.end.t <= n.start.t:
